@@ -428,8 +428,8 @@ func (st *ccState) ctxEnd(c *ccCall) (time.Duration, bool) {
 func (st *ccState) acceptableIn(c *ccCall, from, to time.Duration) *rxRec {
 	p := st.cfg.p
 	for _, r := range st.rx {
-		if r.t < from || r.t > to || !st.eligibleFor(c, r) || r.seq < c.invSeq {
-			continue
+		if r.t < from || r.t > to || !st.eligibleFor(c, r) || (r.doneSeq != 0 && r.doneSeq < c.invSeq) {
+			continue // the receive loop had finished with it before the call started
 		}
 		switch c.spec.mk {
 		case mkAll, mkNil:
@@ -558,7 +558,14 @@ func (st *ccState) oracleLiveness(v *vio) {
 		if exact && !gated && c.retT != c.invT {
 			v.add("T6-close-slow", "Close called at t=%v returned at t=%v", c.invT, c.retT)
 		}
-		if c.liveSUT != 0 {
+		overlapping := false
+		for j := range st.closeCalls {
+			o := &st.closeCalls[j]
+			if j != i && o.invSeq < c.retSeq && (!o.returned || o.retSeq > c.retSeq) {
+				overlapping = true // a concurrent Close is still in progress: only the last one to return is judged
+			}
+		}
+		if c.liveSUT != 0 && !overlapping {
 			v.add("T6-leak", "Close returned at #%d while %d goroutine(s) started by the client were still alive", c.retSeq, c.liveSUT)
 		}
 	}
